@@ -25,7 +25,7 @@ import itertools
 import math
 
 from opsim import seams
-from opsim.core import derive, HarnessError
+from opsim.core import CLOCK, derive, HarnessError
 from opsim.sched import SeqTracer, Sched
 from opsim.util import call, plain, weighted, quiet
 
@@ -95,6 +95,9 @@ ASSUMPTIONS = [
     "a stage completed through its error handler may also stay out of the gain bookkeeping altogether (unchanged code: "
     "no multiply, no clamp for it), so with max_amplification < 1 a run whose only completed stages were recovered may "
     "report 1.0",
+    "CascadeStage.timeout_seconds is set on some stages and some processors let virtual time pass beyond it; unchanged "
+    "code ignores the field, and the oracle has no notion of it: a stage whose processor returned normally but which the "
+    "report calls FAILED is judged by the report (halting after it, its factor not counted)",
     "threads family: every clause is per run() call (run() keeps all per-run state in locals; the statistics counters "
     "on the object are not judged); pre-emption granularity is the source line",
 ]
@@ -106,7 +109,7 @@ EXPECT_PROBES = ("gate_raise_nonhalt", "gate_reject_nonhalt", "gate_falsy", "hal
                  "threads_preempted_inside_run", "shared_gate_rejected", "stage_handed_on_the_same_object",
                  "observer_edited_its_record", "attenuation_after_clamp", "mode_PARALLEL", "mode_CONDITIONAL",
                  "mode_AMPLIFYING", "unity_stage_first_under_a_limiter", "agents_run", "agent_gate_blocked_falsy_input",
-                 "agent_expressed", "agent_input_is_a_Signal")
+                 "agent_expressed", "agent_input_is_a_Signal", "zero_factor_completed", "stage_stalled_past_its_timeout")
 
 MAPK_INPUTS = {
     "str": "hello", "none": None, "int": 7,
@@ -198,6 +201,27 @@ def _decorate(rng, ops):
             st["rec"] = weighted(rng, [(3, "none"), (1, "zero"), (1, "estr"), (1, "elist")])
 
 
+def _limits(rng, ops):
+    """Zero gain factors (int and float) on completing stages; per-stage timeout_seconds with processors during which
+    virtual time passes (the cascade module's time.time() reads the simulator's clock)."""
+    if rng.random() < 0.14:
+        j = rng.randrange(len(ops))
+        ops[j]["amp"] = rng.choice([0, 0.0])
+        if rng.random() < 0.7:
+            ops[j].update({"proc": "ok", "gate": rng.choice(["absent", "pass"])})
+    if rng.random() < 0.14:
+        for st in ops:
+            if rng.random() < 0.5:
+                st["timeout"] = rng.choice([0.01, 0.5, 1.0])
+        j = rng.randrange(len(ops))
+        ops[j]["timeout"] = rng.choice([0.01, 0.5, 1.0])
+        ops[j]["stall"] = rng.choice([0.005, 2.0, 5.0, 60.0])
+        if rng.random() < 0.7:
+            ops[j].update({"proc": "ok", "gate": rng.choice(["absent", "pass"])})
+        if rng.random() < 0.6:
+            ops[j]["required"] = True
+
+
 def _shared_objects(rng, cfg, ops):
     """One checkpoint callable shared by several stages; list signals that processors mutate in place / hand on as is."""
     n = len(ops)
@@ -282,7 +306,8 @@ def gen(rng, tier, i):
         return _agents_plan(rng, halt, max_amp, mode)
     if fam < 0.24:
         cfg = {"halt": halt, "max_amp": max_amp, "family": "mapk", "mode": mode,
-               "tiers": rng.choice([[10.0, 10.0, 10.0], [2.0, 2.0, 2.0], [0.5, 1000.0, 1.0], [1.0, 1.0, 1.0]]),
+               "tiers": rng.choice([[10.0, 10.0, 10.0], [2.0, 2.0, 2.0], [0.5, 1000.0, 1.0], [1.0, 1.0, 1.0],
+                                    [10.0, 0.0, 10.0], [3.0, 2.0, 0]]),
                "drop_first": rng.random() < 0.6}
         names = sorted(MAPK_INPUTS)
         cfg["input"] = rng.choice(names if cfg["drop_first"] else names + ["active", "str"])
@@ -306,6 +331,7 @@ def gen(rng, tier, i):
                 st["gate"] = "falsy"
             ops.append(st)
     _decorate(rng, ops)
+    _limits(rng, ops)
     cfg = {"halt": halt, "max_amp": max_amp, "family": "sampled", "mode": mode}
     if max_amp < 1.0 and rng.random() < 0.6:
         ops[0]["amp"] = 1.0                      # a unity-gain stage first, under a limiter (max < 1)
@@ -336,7 +362,7 @@ def simplify(plan):
         if cfg["tiers"] != [1.0, 1.0, 1.0]:
             yield {**plan, "config": {**cfg, "tiers": [1.0, 1.0, 1.0]}}
     for j, st in enumerate(plan["ops"]):
-        for key in ("name", "out", "rec"):
+        for key in ("name", "out", "rec", "stall", "timeout"):
             if key in st:
                 ops = [dict(o) for o in plan["ops"]]
                 del ops[j][key]
@@ -471,6 +497,11 @@ class _Fakes:
             w.note(w.tag(), self.idx, "proc", handed, beh, None)
             k.fault("collab_raise")
             raise ProcBoom(f"proc{self.idx}")
+        if self.st.get("stall"):
+            CLOCK.advance(self.st["stall"])                 # the processor takes (virtual) time
+            k.fault("collab_stall")
+            if self.st["stall"] > self.st.get("timeout", 30.0):
+                k.probe("stage_stalled_past_its_timeout")
         ret = _produce(self.st.get("out"), self.idx, signal)
         if ret is signal and isinstance(signal, (list, dict)):
             k.probe("stage_handed_on_the_same_object")
@@ -494,7 +525,7 @@ def _fake_stage(w, idx, st, pos):
     return CascadeStage(name=st.get("name", f"s{idx}"), processor=f.proc, amplification=st["amp"],
                         checkpoint=None if st["gate"] == "absent" else w.shared_gate if st["gate"] == "shared" else f.gate,
                         on_error=None if st["handler"] == "absent" else f.handler,
-                        required=st["required"])
+                        required=st["required"], **({"timeout_seconds": st["timeout"]} if "timeout" in st else {}))
 
 
 # the preset's three tiers, restated (name, gate, function)
@@ -732,6 +763,11 @@ def _judge(w, tag, signal0, out):
             else:
                 fate[d_i], why[d_i] = "failed", ("gate=raise" if verdict == "raise" else "proc=raise")
 
+    # a stage whose processor returned normally but which the report calls FAILED / SKIPPED (nothing in unchanged code
+    # does that) is judged by the report: halting must hold after it and its factor must not count
+    for d_i, d in enumerate(desc):
+        if d["fake"] is not None and fate[d_i] == "completed" and per[d_i] and _status(per[d_i][-1]) != "COMPLETED":
+            fate[d_i], why[d_i] = "failed", "reported_" + _status(per[d_i][-1]).lower()
     faults_seen = any(f in ("blocked", "failed", "recovered") for f in fate)
     if faults_seen:
         k.nontrivial = True
@@ -843,6 +879,8 @@ def _judge(w, tag, signal0, out):
             accepted.add(min(prod, mx))
             if clamped or prod > mx:
                 k.probe("clamped")
+        if any(fate[i] == "completed" and d["amp"] == 0 for i, d in enumerate(desc)):
+            k.probe("zero_factor_completed")
         if mx < 1.0 and choices and choices[0] == (1.0,):
             k.probe("unity_stage_first_under_a_limiter")
         got = res.total_amplification
